@@ -549,16 +549,124 @@ theorem lookup_zip_none {y : String} : ∀ {ps : List String} {vs : List Val}, y
     rw [hne]
     exact lookup_zip_none (fun hm => h (List.mem_cons_of_mem _ hm))
 
-/-- applying a closure object to evaluated arguments (already on the data stack, control already
-in the callee): prologue, body, epilogue, back in the caller — against `applyFn` -/
+/-- the values bound to the formals `ps ++ rest.toList`: the arguments, those beyond the fixed ones packed -/
+def bvals (rest : Option String) (nfix : Nat) (vs : List Val) : List Val :=
+  match rest with
+  | none => vs
+  | some _ => vs.take nfix ++ [mkList (vs.drop nfix)]
+
+/-- the arity check of a call -/
+def arOk (rest : Option String) (nfix n : Nat) : Prop :=
+  match rest with
+  | none => n = nfix
+  | some _ => nfix ≤ n
+
+instance (rest : Option String) (nfix n : Nat) : Decidable (arOk rest nfix n) := by
+  unfold arOk; cases rest <;> infer_instance
+
+theorem bvals_length {rest : Option String} {nfix : Nat} {vs : List Val} (h : arOk rest nfix vs.length) :
+    (bvals rest nfix vs).length = nfix + rest.toList.length := by
+  cases rest with
+  | none => simpa [bvals, arOk] using h
+  | some r => simp only [bvals, arOk] at h ⊢; simp; omega
+
+theorem bvals_map (m : Nat → Nat) (rest : Option String) (nfix : Nat) (vs : List Val) :
+    bvals rest nfix (vs.map (trf m)) = (bvals rest nfix vs).map (trf m) := by
+  cases rest with
+  | none => rfl
+  | some r =>
+    simp only [bvals, List.map_append, List.map_take, List.map_cons, List.map_nil]
+    congr 2
+    rw [← List.map_drop]
+    exact tr_mkList m id id _
+
+/-- `bindParams` in terms of the formals and the bound values -/
+theorem ref_bindParams_eq (ps : List String) (rest : Option String) (vs : List Val) (h : arOk rest ps.length vs.length) :
+    Ref.bindParams ps rest vs = some ((ps ++ rest.toList).zip (bvals rest ps.length vs)) := by
+  cases rest with
+  | none =>
+    simp only [arOk] at h
+    simp [Ref.bindParams, h, bvals]
+  | some r =>
+    simp only [arOk] at h
+    have h' : vs.length ≥ ps.length := h
+    simp only [Ref.bindParams, h', if_true, bvals, Option.toList]
+    congr 1
+    rw [List.zip_append (by simp; omega)]
+    rfl
+
+theorem ref_bindParams_none (ps : List String) (rest : Option String) (vs : List Val) (h : ¬ arOk rest ps.length vs.length) :
+    Ref.bindParams ps rest vs = none := by
+  cases rest with
+  | none => simp only [arOk] at h; simp [Ref.bindParams, h]
+  | some r =>
+    simp only [arOk] at h
+    have h' : ¬ vs.length ≥ ps.length := h
+    simp [Ref.bindParams, h']
+
+/-- the data stack `CallFunction` leaves: the arguments, a variadic tail packed -/
+def argsData (rest : Option String) (nfix : Nat) (vs : List Val) (D : List (Option Val)) : List (Option Val) :=
+  (bvals rest nfix vs).reverse.map some ++ D
+
+/-- the state `CallFunction` leaves for closure object `vid` of closure `c` applied to `vs` -/
+def enteredA (s : St) (vid : Nat) (rest : Option String) (nfix : Nat) (vs : List Val) (D : List (Option Val)) : St :=
+  entered { s with data := argsData rest nfix vs D } vid
+
+theorem enteredA_none (s : St) (vid nfix : Nat) (vs : List Val) (D : List (Option Val)) (hd : s.data = vs.reverse.map some ++ D) :
+    enteredA s vid none nfix vs D = entered s vid := by
+  unfold enteredA argsData bvals
+  rw [← hd]
+
+theorem okParam_all {ps : List String} {rest : Option String} (hp : ∀ p ∈ ps, okParam p = true) (hr : okRest rest = true) :
+    ∀ p ∈ ps ++ rest.toList, okParam p = true := by
+  intro p hm
+  rcases List.mem_append.mp hm with h | h
+  · exact hp p h
+  · cases rest with
+    | none => cases h
+    | some r => simp only [Option.toList, List.mem_singleton] at h; subst h; exact hr
+
+/-- `CallFunction` of a closure object: the arity check, then control in the callee -/
+theorem run_callFunction_clo (vid : Nat) (rest : Option String) (nfix : Nat) (vs : List Val) (D : List (Option Val)) (s : St)
+    (hd : s.data = vs.reverse.map some ++ D) (hv : (fnOf s vid).varargs = rest.isSome) (hn : (fnOf s vid).nargs = nfix) :
+    (callFunction vid vs.length).run s =
+      if arOk rest nfix vs.length then (.ok (), enteredA s vid rest nfix vs D) else (.error .err, s) := by
+  cases rest with
+  | none =>
+    rw [run_callFunction_fixed vid vs D s hd hv, hn, enteredA_none s vid nfix vs D hd]
+    rfl
+  | some r =>
+    have hv' : (fnOf s vid).varargs = true := hv
+    by_cases har : nfix ≤ vs.length
+    · have : arOk (some r) nfix vs.length := har
+      rw [if_pos this, run_callFunction_var vid vs D s hd hv' (by rw [hn]; exact har), hn]
+      unfold enteredA argsData bvals
+      simp
+    · have : ¬ arOk (some r) nfix vs.length := har
+      rw [if_neg this]
+      unfold callFunction
+      have hnlt : ¬ s.data.length < vs.length := by rw [hd]; simp
+      have hnone : ((s.data.take vs.length).any Option.isNone) = false := by
+        have hlen : (vs.reverse.map some).length = vs.length := by simp
+        rw [hd, ← hlen, List.take_left]
+        simp
+      simp only [run_bind, run_get, run_ite, if_neg hnlt, hnone, Bool.false_eq_true, if_false, run_pure, hv', if_true]
+      unfold wrangleOptargs
+      have hlt : vs.length < (fnOf s vid).nargs := by rw [hn]; omega
+      simp only [run_ite, if_pos hlt, run_err, run_bind]
+
+/-- applying a closure object to evaluated arguments (already on the data stack — a variadic tail already
+packed —, control already in the callee): prologue, body, epilogue, back in the caller — against `applyFn` -/
 def FClaimU (n : Nat) : Prop :=
-  ∀ m s₁ rs₁ env vid (vs : List Val) (D : List (Option Val)), RelF m s₁ rs₁ env → GoodFn m s₁ rs₁ vid →
-    s₁.data = vs.reverse.map some ++ D → (∀ v ∈ vs, VOk m s₁ rs₁ v) → vs.length = (fnOf s₁ vid).nargs →
+  ∀ m s₁ rs₁ env vid (c : Ref.Clos) (vs : List Val) (D : List (Option Val)), RelF m s₁ rs₁ env → GoodFn m s₁ rs₁ vid →
+    rs₁.clos[m vid]? = some c →
+    s₁.data = vs.reverse.map some ++ D → (∀ v ∈ vs, VOk m s₁ rs₁ v) → arOk c.rest c.ps.length vs.length →
     match Ref.applyFn n (.fn (m vid)) (vs.map (trf m)) rs₁ with
-    | .ok v' rs' => ∃ (s' : St) (m' : Nat → Nat) (v : Val), ReachX (entered s₁ vid) s' ∧ s'.pc = s₁.pc + 1
+    | .ok v' rs' => ∃ (s' : St) (m' : Nat → Nat) (v : Val), ReachX (enteredA s₁ vid c.rest c.ps.length vs D) s'
+        ∧ s'.pc = s₁.pc + 1
         ∧ s'.data = some v :: D ∧ v' = trf m' v ∧ RelF m' s' rs' env ∧ MExt s₁ m m' ∧ RExt rs₁ rs'
         ∧ FrameF s₁ s' ∧ VOk m' s' rs' v
-    | .err rs' => FailsX (entered s₁ vid) rs'.trace
+    | .err rs' => FailsX (enteredA s₁ vid c.rest c.ps.length vs D) rs'.trace
     | .timeout => True
     | .brk _ _ => False
     | .cont _ _ => False
@@ -657,9 +765,9 @@ theorem refCall_other (k : Nat) (fv : Val) (args : List Expr) (env : Nat) (rs : 
 /-! ## The call instruction: the machine against the reference -/
 
 theorem ref_applyFn_arity (k cid : Nat) (vs' : List Val) (rs : Ref.St) (c : Ref.Clos) (hc : rs.clos[cid]? = some c)
-    (hrest : c.rest = none) (hne : vs'.length ≠ c.ps.length) : Ref.applyFn (k + 1) (.fn cid) vs' rs = .err rs := by
+    (hne : ¬ arOk c.rest c.ps.length vs'.length) : Ref.applyFn (k + 1) (.fn cid) vs' rs = .err rs := by
   rw [Ref.applyFn]
-  simp only [hc, Ref.bindParams, hrest, hne, if_false]
+  simp only [hc, ref_bindParams_none _ _ _ hne]
 
 /-- a call whose callee symbol denotes a closure object -/
 theorem simF_call_fn {k : Nat} (hA : FClaimA (k + 1)) (hU : FClaimU (k + 1)) {h : String} {args : List Expr}
@@ -675,7 +783,7 @@ theorem simF_call_fn {k : Nat} (hA : FClaimA (k + 1)) (hU : FClaimU (k + 1)) {h 
     unfold FnObj.hasLazyFormals
     rw [hparams, List.any_eq_false]
     intro p hp
-    have := okParam_not_lazy (hokp p hp)
+    have := okParam_not_lazy (okParam_all hokp hrest p hp)
     unfold Ref.isLazyParam at this
     simp [this]
   have hprep := hA args hargs (some (fnOf s vid)) hfo 0 m s rs env hrel
@@ -693,20 +801,21 @@ theorem simF_call_fn {k : Nat} (hA : FClaimA (k + 1)) (hU : FClaimU (k + 1)) {h 
     have hlen : args.length = vs.length := by
       rw [← ref_evalArgs_length _ _ _ _ _ _ _ h1, hvs, List.length_map]
     have hfo1 : fnOf s1 vid = fnOf s vid := fr1.fns vid hg.lt
-    have hcf := run_callFunction_fixed vid vs s.data s1 hd1 (by rw [hfo1]; exact hvar)
+    have hcf := run_callFunction_clo vid c.rest c.ps.length vs s.data s1 hd1 (by rw [hfo1]; exact hvar) (by rw [hfo1]; exact hnargs)
     have hg1 : GoodFn m1 s1 rs1 vid := hg.ext fr1 ext1 hm1
     have hmv : m1 vid = m vid := hm1 vid hg.lt
-    by_cases har : vs.length = (fnOf s1 vid).nargs
+    by_cases har : arOk c.rest c.ps.length vs.length
     · -- control enters the callee
       rw [if_pos har] at hcf
-      have hx : ∀ f, M + 3 ≤ f → (exec (f + 1) (.callExpr (.sym h) args)).run s = (.ok (), entered s1 vid) := by
+      have hx : ∀ f, M + 3 ≤ f → (exec (f + 1) (.callExpr (.sym h) args)).run s
+          = (.ok (), enteredA s1 vid c.rest c.ps.length vs s.data) := by
         intro f hf
         obtain ⟨G, rfl⟩ : ∃ G, f = G + 2 := ⟨f - 2, by omega⟩
         rw [hexec G, run_bind, hM (G + 1) (by omega)]
         simp only
         rw [hlen, hcf]; rfl
-      have r1 : ReachX s (entered s1 vid) := ReachX.step hseg.head (M + 3) hx
-      have hu := hU m1 s1 rs1 env vid vs s.data rel1 hg1 hd1 hcl har
+      have r1 : ReachX s (enteredA s1 vid c.rest c.ps.length vs s.data) := ReachX.step hseg.head (M + 3) hx
+      have hu := hU m1 s1 rs1 env vid c vs s.data rel1 hg1 (by rw [hmv]; exact ext1.2 _ _ hc1) hd1 hcl har
       rw [hmv, ← hvs] at hu
       cases h2 : Ref.applyFn (k + 1) (.fn (m vid)) vs' rs1 with
       | ok v' rs2 =>
@@ -722,9 +831,9 @@ theorem simF_call_fn {k : Nat} (hA : FClaimA (k + 1)) (hU : FClaimU (k + 1)) {h 
       | cont l rs2 => rw [h2] at hu; exact hu.elim
     · -- wrong number of arguments
       rw [if_neg har] at hcf
-      have hne : vs'.length ≠ c.ps.length := by
-        rw [hvs, List.length_map, ← hnargs, ← hfo1]; exact har
-      rw [ref_applyFn_arity k (m vid) vs' rs1 c (ext1.2 _ _ hc1) hrest hne]
+      have hne : ¬ arOk c.rest c.ps.length vs'.length := by
+        rw [hvs, List.length_map]; exact har
+      rw [ref_applyFn_arity k (m vid) vs' rs1 c (ext1.2 _ _ hc1) hne]
       refine FailsX.step hseg.head (M + 3) (fun f hf => ?_)
       obtain ⟨G, rfl⟩ : ∃ G, f = G + 2 := ⟨f - 2, by omega⟩
       refine ⟨{ s1 with data := truncate s1.data s.data.length }, ?_, rel1.trace⟩
@@ -1046,31 +1155,32 @@ theorem fclaimC_succ {n : Nat} (hE : FClaimE n) (hC : FClaimC n) : FClaimC (n + 
 /-! ## `fn`, `defn`: a closure is made -/
 
 /-- the template of a `fn`/`defn` in the running state, and what its body's compile left -/
-theorem tmpl_facts (isFn : Nat → Bool) (gs g₂ : GS) (fname : String) (ps : List String) (b : List Instr) (s : St)
-    (hk : KeepFns (gsAlloc isFn gs fname ps) g₂) (hgen : GenOk gs (gsFin g₂ gs.fns.length b) s) :
-    fnOf s gs.fns.length = { tmplOf isFn gs fname ps with code := fnCode gs.fns.length ps b }
-      ∧ gs.fns.length < s.fns.length ∧ GenOk (gsAlloc isFn gs fname ps) g₂ s := by
+theorem tmpl_facts (isFn : Nat → Bool) (gs g₂ : GS) (fname : String) (ps : List String) (rest : Option String) (b : List Instr)
+    (s : St) (hk : KeepFns (gsAlloc isFn gs fname ps rest) g₂) (hgen : GenOk gs (gsFin g₂ gs.fns.length b) s) :
+    fnOf s gs.fns.length = { tmplOf isFn gs fname ps rest with code := fnCode gs.fns.length (ps ++ rest.toList) b }
+      ∧ gs.fns.length < s.fns.length ∧ GenOk (gsAlloc isFn gs fname ps rest) g₂ s := by
   have hl2 : gs.fns.length + 1 ≤ g₂.fns.length := by have := hk.len; simpa [gsAlloc] using this
   have hlf : (gsFin g₂ gs.fns.length b).fns.length = g₂.fns.length := by simp [gsFin]
   have hlen := hgen.len
   rw [hlf] at hlen
   refine ⟨?_, by omega, ⟨hgen.live, by have := hgen.main; simp [gsAlloc]; omega, hlen, fun t h1 h2 => ?_, hgen.loops⟩⟩
   · rw [hgen.tmpl gs.fns.length (Nat.le_refl _) (by rw [hlf]; omega), gsFin_getD_self _ _ _ (by omega)]
-    exact finTmpl_eq isFn gs g₂ fname ps b hk
+    exact finTmpl_eq isFn gs g₂ fname ps rest b hk
   · have h1' : gs.fns.length + 1 ≤ t := by simpa [gsAlloc] using h1
     rw [hgen.tmpl t (by omega) (by rw [hlf]; exact h2), gsFin_getD_other _ _ _ _ (by omega)]
 
 /-- `createClosure t`: the new function object is a good closure object for the reference closure
 just made; the relation holds with the id map extended by the new pair -/
 theorem closure_step {m : Nat → Nat} {s : St} {rs : Ref.St} {env : Nat} (hrel : RelF m s rs env) (t : Nat) (c : Ref.Clos)
-    (hcenv : c.env = env) (hrest : c.rest = none) (hnd : c.ps.Nodup)
+    (hcenv : c.env = env) (hrest : okRest c.rest = true) (hnd : (c.ps ++ c.rest.toList).Nodup)
     (hps : ∀ p ∈ c.ps, okParam p = true) (hbody : c.body ≠ [])
-    (hparams : (fnOf s t).params = c.ps) (hnargs : (fnOf s t).nargs = c.ps.length) (hvar : (fnOf s t).varargs = false)
+    (hparams : (fnOf s t).params = c.ps ++ c.rest.toList) (hnargs : (fnOf s t).nargs = c.ps.length)
+    (hvar : (fnOf s t).varargs = c.rest.isSome)
     (huser : (fnOf s t).user = false) (htlt : t < s.fns.length) (htclo : (fnOf s t).closing = [some 0])
-    (hcode : ∃ b tl isFn cb gs0 gs1 self, (fnOf s t).code = fnCode t c.ps b
+    (hcode : ∃ b tl isFn cb gs0 gs1 self, (fnOf s t).code = fnCode t (c.ps ++ c.rest.toList) b
       ∧ (compileBegin isFn cb c.body).run gs0 = .ok ((b, tl), gs1) ∧ cb.scopes = 0
       ∧ FnameOk self cb ∧ (∃ ex, FzList ex self c.body = true ∧ (ex = true → gs0.loopstack = [])) ∧ GenOk gs0 gs1 s
-      ∧ KnownOk cb gs0 c.ps) :
+      ∧ KnownOk cb gs0 c.ps c.rest) :
     RelF (mapWith m s.fns.length rs.clos.length) (afterClosure s t) { rs with clos := rs.clos ++ [c] } env
       ∧ GoodFn (mapWith m s.fns.length rs.clos.length) (afterClosure s t) { rs with clos := rs.clos ++ [c] } s.fns.length
       ∧ MExt s m (mapWith m s.fns.length rs.clos.length) ∧ RExt rs { rs with clos := rs.clos ++ [c] }
@@ -1098,30 +1208,30 @@ theorem closure_step {m : Nat → Nat} {s : St} {rs : Ref.St} {env : Nat} (hrel 
     hmext, ⟨fun i fr hf => ⟨fr, hf, rfl⟩, hclos1⟩,
     ⟨⟨rfl, rfl, rfl, rfl, hfl1, hfo1, Nat.le_refl _, fun _ _ => rfl⟩, Nat.le_refl _, fun _ _ => rfl⟩, hmv, hfo1 _ hfc.lt⟩
 
-theorem simF_fn {n : Nat} {self : String} (ps : List String) (body : List Expr)
-    (hform : Ff true self (.fn ps none body) = true) (isFn : Nat → Bool) (c : Ctx) (gs : GS)
-    (r : (List Instr × Bool) × GS) (hc : (compile isFn c (.fn ps none body)).run gs = .ok r)
+theorem simF_fn {n : Nat} {self : String} (ps : List String) (rest : Option String) (body : List Expr)
+    (hform : Ff true self (.fn ps rest body) = true) (isFn : Nat → Bool) (c : Ctx) (gs : GS)
+    (r : (List Instr × Bool) × GS) (hc : (compile isFn c (.fn ps rest body)).run gs = .ok r)
     {m : Nat → Nat} {s : St} {rs : Ref.St} {env : Nat} {pre post : List Instr}
     (hrel : RelF m s rs env) (hgen : GenOk gs r.2 s) (hseg : Seg s pre r.1.1 post) :
-    SimF r.1.1 m s rs env (Ref.eval (n + 1) (.fn ps none body) env rs) := by
+    SimF r.1.1 m s rs env (Ref.eval (n + 1) (.fn ps rest body) env rs) := by
   rw [Ff] at hform
-  simp only [Bool.and_eq_true, Option.isNone_none, decide_eq_true_eq, Bool.not_eq_true', List.isEmpty_eq_false_iff,
+  simp only [Bool.and_eq_true, decide_eq_true_eq, Bool.not_eq_true', List.isEmpty_eq_false_iff,
     List.all_eq_true, true_and] at hform
-  obtain ⟨⟨⟨hnd, hps⟩, hbody⟩, hff⟩ := hform
+  obtain ⟨⟨⟨⟨hrest, hnd⟩, hps⟩, hbody⟩, hff⟩ := hform
   obtain ⟨b, tl, g2, hb, _, hk2⟩ := compileBegin_total_Ff true "" body hbody hff isFn (anonCtx c gs)
-    (gsAlloc isFn gs s!"__anon{gs.fns.length}" ps) (anonCtx_funcname c gs)
-  have hceq := compile_fn_eq isFn c ps body gs g2 b tl hb
+    (gsAlloc isFn gs s!"__anon{gs.fns.length}" ps rest) (anonCtx_funcname c gs)
+  have hceq := compile_fn_eq isFn c ps rest body gs g2 b tl hb
   rw [hceq] at hc
   injection hc with hc
   subst hc
   simp only at hseg hgen ⊢
-  obtain ⟨hTd, htl, hgenb⟩ := tmpl_facts isFn gs g2 _ ps b s hk2.1 hgen
+  obtain ⟨hTd, htl, hgenb⟩ := tmpl_facts isFn gs g2 _ ps rest b s hk2.1 hgen
   obtain ⟨rel1, hgood, hmext, hrext, hfr, hmv, hfo⟩ := closure_step hrel gs.fns.length
-    { ps := ps, rest := none, body := body, env := env } rfl rfl hnd hps hbody
+    { ps := ps, rest := rest, body := body, env := env } rfl hrest hnd hps hbody
     (by rw [hTd]; rfl) (by rw [hTd]; rfl) (by rw [hTd]; rfl) (by rw [hTd]; rfl) htl
     (by rw [hTd]; show newClosing isFn gs.live = [some 0]; rw [hgen.live]; exact newClosing_single _)
     ⟨b, tl, isFn, anonCtx c gs, _, g2, "", by rw [hTd], hb, rfl, anonCtx_funcname c gs, ⟨false, fzList_of_ff _ _ hff, fun h => by cases h⟩, hgenb,
-      knownOk_anonCtx c gs _ ps⟩
+      knownOk_anonCtx c gs _ ps rest⟩
   rw [Ref.eval]
   have a0 : At s pre (.createClosure gs.fns.length) post := hseg.head
   refine ⟨afterClosure s gs.fns.length, _, .fn s.fns.length,
@@ -1131,39 +1241,40 @@ theorem simF_fn {n : Nat} {self : String} (ps : List String) (body : List Expr)
   rw [hmv]
 
 /-- `defn`: the closure is made and bound; the body may hold self tail calls (`FzList`) -/
-theorem simF_defn_core {n : Nat} (name : String) (ps : List String) (body : List Expr)
-    (hname : okName name = true) (hne : name ≠ "") (hnd : ps.Nodup) (hps : ∀ p ∈ ps, okParam p = true) (hbody : body ≠ [])
+theorem simF_defn_core {n : Nat} (name : String) (ps : List String) (rest : Option String) (body : List Expr)
+    (hrest : okRest rest = true)
+    (hname : okName name = true) (hne : name ≠ "") (hnd : (ps ++ rest.toList).Nodup) (hps : ∀ p ∈ ps, okParam p = true) (hbody : body ≠ [])
     {ex : Bool} (hfz : FzList ex name body = true) (hex : ex = true → gs.loopstack = []) (isFn : Nat → Bool) (c : Ctx) (g2 : GS)
     (b : List Instr) (tl : Bool)
-    (hb : (compileBegin isFn (bodyCtx c gs name ps body) body).run (gsAlloc isFn gs name ps) = .ok ((b, tl), g2))
-    (hk2 : KeepFns (gsAlloc isFn gs name ps) g2)
-    (r : (List Instr × Bool) × GS) (hc : (compile isFn c (.defn name ps none body)).run gs = .ok r)
+    (hb : (compileBegin isFn (bodyCtx c gs name ps rest body) body).run (gsAlloc isFn gs name ps rest) = .ok ((b, tl), g2))
+    (hk2 : KeepFns (gsAlloc isFn gs name ps rest) g2)
+    (r : (List Instr × Bool) × GS) (hc : (compile isFn c (.defn name ps rest body)).run gs = .ok r)
     {m : Nat → Nat} {s : St} {rs : Ref.St} {env : Nat} {pre post : List Instr}
     (hrel : RelF m s rs env) (hgen : GenOk gs r.2 s) (hseg : Seg s pre r.1.1 post) :
-    SimF r.1.1 m s rs env (Ref.eval (n + 1) (.defn name ps none body) env rs) := by
-  have hceq := compile_defn_eq isFn c name ps body gs g2 b tl hne hb
+    SimF r.1.1 m s rs env (Ref.eval (n + 1) (.defn name ps rest body) env rs) := by
+  have hceq := compile_defn_eq isFn c name ps rest body gs g2 b tl hne hb
   rw [hceq] at hc
   injection hc with hc
   subst hc
   simp only at hseg hgen ⊢
-  obtain ⟨hTd, htl, hgenb⟩ := tmpl_facts isFn gs g2 _ ps b s hk2 hgen
+  obtain ⟨hTd, htl, hgenb⟩ := tmpl_facts isFn gs g2 _ ps rest b s hk2 hgen
   obtain ⟨rel1, hgood, hmext, hrext, hfr01, hmv, hfo⟩ := closure_step hrel gs.fns.length
-    { ps := ps, rest := none, body := body, env := env } rfl rfl hnd hps hbody
+    { ps := ps, rest := rest, body := body, env := env } rfl hrest hnd hps hbody
     (by rw [hTd]; rfl) (by rw [hTd]; rfl) (by rw [hTd]; rfl) (by rw [hTd]; rfl) htl
     (by rw [hTd]; show newClosing isFn gs.live = [some 0]; rw [hgen.live]; exact newClosing_single _)
-    ⟨b, tl, isFn, bodyCtx c gs name ps body, _, g2, name, by rw [hTd], hb, rfl, bodyCtx_funcname c gs name ps body,
-      ⟨ex, hfz, hex⟩, hgenb, knownOk_bodyCtx isFn c gs name ps body⟩
+    ⟨b, tl, isFn, bodyCtx c gs name ps rest body, _, g2, name, by rw [hTd], hb, rfl, bodyCtx_funcname c gs name ps rest body,
+      ⟨ex, hfz, hex⟩, hgenb, knownOk_bodyCtx isFn c gs name ps rest body⟩
   -- the reference side
   rw [Ref.eval]
   show SimF _ m s rs env
-    (match Ref.define { rs with clos := rs.clos ++ [{ ps := ps, rest := none, body := body, env := env }] } env name
-        (.fn ((rs.clos ++ [({ ps := ps, rest := none, body := body, env := env } : Ref.Clos)]).length - 1)) with
+    (match Ref.define { rs with clos := rs.clos ++ [{ ps := ps, rest := rest, body := body, env := env }] } env name
+        (.fn ((rs.clos ++ [({ ps := ps, rest := rest, body := body, env := env } : Ref.Clos)]).length - 1)) with
      | some s' => .ok .nil s'
-     | none => .err { rs with clos := rs.clos ++ [{ ps := ps, rest := none, body := body, env := env }] })
-  have hcid : (rs.clos ++ [({ ps := ps, rest := none, body := body, env := env } : Ref.Clos)]).length - 1 = rs.clos.length := by
+     | none => .err { rs with clos := rs.clos ++ [{ ps := ps, rest := rest, body := body, env := env }] })
+  have hcid : (rs.clos ++ [({ ps := ps, rest := rest, body := body, env := env } : Ref.Clos)]).length - 1 = rs.clos.length := by
     simp
   rw [hcid]
-  generalize hrs1 : ({ rs with clos := rs.clos ++ [{ ps := ps, rest := none, body := body, env := env }] } : Ref.St) = rs₁
+  generalize hrs1 : ({ rs with clos := rs.clos ++ [{ ps := ps, rest := rest, body := body, env := env }] } : Ref.St) = rs₁
     at rel1 hgood hrext
   -- createClosure
   have a0 : At s pre (.createClosure gs.fns.length) ([.popStackPutEnv name, .push .nil] ++ post) :=
@@ -1207,19 +1318,19 @@ theorem simF_defn_core {n : Nat} (name : String) (ps : List String) (body : List
       show s.pc + 1 + 1 + 1 = _; simp; omega
     · subst hs2; subst hs1; rfl
 
-theorem simF_defn {n : Nat} {self : String} (name : String) (ps : List String) (body : List Expr)
-    (hform : Ff true self (.defn name ps none body) = true) (isFn : Nat → Bool) (c : Ctx) (gs : GS)
-    (r : (List Instr × Bool) × GS) (hc : (compile isFn c (.defn name ps none body)).run gs = .ok r)
+theorem simF_defn {n : Nat} {self : String} (name : String) (ps : List String) (rest : Option String) (body : List Expr)
+    (hform : Ff true self (.defn name ps rest body) = true) (isFn : Nat → Bool) (c : Ctx) (gs : GS)
+    (r : (List Instr × Bool) × GS) (hc : (compile isFn c (.defn name ps rest body)).run gs = .ok r)
     {m : Nat → Nat} {s : St} {rs : Ref.St} {env : Nat} {pre post : List Instr}
     (hrel : RelF m s rs env) (hgen : GenOk gs r.2 s) (hseg : Seg s pre r.1.1 post) :
-    SimF r.1.1 m s rs env (Ref.eval (n + 1) (.defn name ps none body) env rs) := by
+    SimF r.1.1 m s rs env (Ref.eval (n + 1) (.defn name ps rest body) env rs) := by
   rw [Ff] at hform
-  simp only [Bool.and_eq_true, Option.isNone_none, bne_iff_ne, ne_eq, decide_eq_true_eq, Bool.not_eq_true',
+  simp only [Bool.and_eq_true, bne_iff_ne, ne_eq, decide_eq_true_eq, Bool.not_eq_true',
     List.isEmpty_eq_false_iff, List.all_eq_true, true_and] at hform
-  obtain ⟨⟨⟨⟨⟨hname, hne⟩, hnd⟩, hps⟩, hbody⟩, hff⟩ := hform
-  obtain ⟨b, tl, g2, hb, _, hk2⟩ := compileBegin_total_Ff true name body hbody hff isFn (bodyCtx c gs name ps body)
-    (gsAlloc isFn gs name ps) (bodyCtx_funcname c gs name ps body)
-  exact simF_defn_core name ps body hname hne hnd hps hbody (fzList_of_ff _ _ hff) (fun h => by cases h) isFn c g2 b tl hb hk2.1
-    r hc hrel hgen hseg
+  obtain ⟨⟨⟨⟨⟨⟨hrest, hname⟩, hne⟩, hnd⟩, hps⟩, hbody⟩, hff⟩ := hform
+  obtain ⟨b, tl, g2, hb, _, hk2⟩ := compileBegin_total_Ff true name body hbody hff isFn (bodyCtx c gs name ps rest body)
+    (gsAlloc isFn gs name ps rest) (bodyCtx_funcname c gs name ps rest body)
+  exact simF_defn_core name ps rest body hrest hname hne hnd hps hbody (fzList_of_ff _ _ hff) (fun h => by cases h) isFn c g2 b tl
+    hb hk2.1 r hc hrel hgen hseg
 
 end ZygoVerif.Sim
